@@ -1,0 +1,40 @@
+//go:build verif
+
+package parse
+
+// Contracts for package config/parse (comment-only; checked by /verif/engine).
+
+//@ pred BoolOK(rem string) bool = len(strings.Fields(rem)) == 0 || (len(strings.Fields(rem)) == 1 && (strings.Fields(rem)[0] == "yes" || strings.Fields(rem)[0] == "no"))
+//@ pred BoolValue(rem string) bool = len(strings.Fields(rem)) == 0 || strings.Fields(rem)[0] == "yes"
+//@ pred StringOK(rem string) bool = len(strings.Fields(rem)) == 1
+//@ pred StringValue(rem string) string = strings.Fields(rem)[0]
+
+// "the text after the first space is the value"
+//@ func Command
+//@   props C12 C19
+//@   ensures !strings.Contains(value, " ") ==> result0 == value && result1 == ""
+//@   ensures strings.Contains(value, " ") ==> value == result0 + " " + result1 && !strings.Contains(result0, " ")
+
+//@ func Enum
+//@   props C12
+//@   ensures len(strings.Fields(remaining)) == 0 && empty ==> result == "" && err == nil
+//@   ensures (len(strings.Fields(remaining)) == 0 && !empty) || len(strings.Fields(remaining)) > 1 ==> err != nil
+//@   ensures len(strings.Fields(remaining)) == 1 ==> (err == nil) == (exists i int :: 0 <= i && i < len(values) && strings.Fields(remaining)[0] == string(values[i]))
+//@   ensures len(strings.Fields(remaining)) == 1 && err == nil ==> string(result) == strings.Fields(remaining)[0]
+//@   loop 1 invariant forall j int :: 0 <= j && j < idx ==> fields[0] != string(values[j])
+
+// a bare setting or `yes` enables, `no` disables, anything else is an error
+//@ func Bool
+//@   props C12
+//@   ensures (err == nil) == BoolOK(remaining)
+//@   ensures err == nil ==> result == BoolValue(remaining)
+
+//@ func String
+//@   props C12
+//@   ensures (err == nil) == StringOK(remaining)
+//@   ensures err == nil ==> result == StringValue(remaining)
+//@   ensures err != nil ==> result == ""
+
+//@ func Regex
+//@   props C12
+//@   ensures !StringOK(remaining) ==> err != nil && result == nil
